@@ -505,7 +505,7 @@ pub fn preprocess_str<T: AsRef<Path>, U: AsRef<Path>, V: BuildHasher>(
             NodeEvent::Enter(RefNode::WhiteSpace(x)) if !skip_whitespace && !strip_comments => {
                 if let WhiteSpace::Space(_) = x {
                     let locate: Locate = x.try_into().unwrap();
-                    let range = Range::new(locate.offset + locate.len, locate.offset + locate.len);
+                    let range = Range::new(locate.offset, locate.offset + locate.len);
                     ret.push(locate.str(&s), Some((path.as_ref(), range)));
                 }
             }
